@@ -74,7 +74,7 @@ Patterns == << <<<<97>>, <<98>>>>,                                 \* a/b/a/b...
 PatternPath(k, n) == [i \in 1..n |-> Patterns[k][((i - 1) % Len(Patterns[k])) + 1]]
 LongSegLists == {PatternPath(k, n) : k \in 1..(Len(Patterns) - 2), n \in {16, 17, 18, 33}}
                 \* > 512 bytes of normalized segments (ten 60-byte ones); ~30 s of TLC time: thorough tier only
-                \cup (IF MaxSegs >= 6 \/ MaxSegs = 0 THEN {PatternPath(Len(Patterns) - 1, 20), PatternPath(Len(Patterns), 15)} ELSE {})
+                \cup (IF MaxSegs = 0 THEN {PatternPath(Len(Patterns) - 1, 20), PatternPath(Len(Patterns), 15)} ELSE {})
 
 Init == abs \in BOOLEAN /\ segs = <<>> /\ done = TRUE /\ PrintT(ToJson(Case(Join(abs, <<>>))))
 \* two steps, so that the long paths are spread over TLC's workers (the successors of one
